@@ -102,6 +102,7 @@ func cmdCheck(args []string) int {
 		cfg.Stall = hs.Stall
 		cfg.TimeFixed = hs.TimeFixed
 		cfg.TimersMayFire = hs.TimersMayFire
+		cfg.SymAddr = hs.SymAddr
 		if hs.Stall && hs.Steps == 0 {
 			cfg.StepBudget = 600000
 		}
